@@ -65,6 +65,10 @@ def check_basic_fifo(ctx):
             rd_m = {"d": kw.get("domain", ("c", "sync")), "t": kw.get("transparent_for", ("list",))}
     if wr is None or rd is None:
         raise AnalysisError("C14", comp.site, "BasicFifo: memory ports not found", missing="BasicFifo: memory ports not found")
+    # the read port is enabled in every cycle (initial value 1, or driven with the constant 1): the head follows the read index
+    ens = writers_of(ex, ("a", rd, "en"), "any")
+    ctx.check(all(w.rhs in (("c", 1), ("c", True), ("call", ("n", "C"), (("c", 1),), ())) and w.guard is True for w in ens), "C14.read-port-always-enabled", ens[0].fact.site if ens else comp.site, "BasicFifo.read_port.en",
+              found="; ".join(f"{tstr(w.fact.domain)} += en.eq({tstr(w.rhs)[:80]})" for w in ens) or "never assigned (initial value 1)", required="the read port is enabled in every cycle")
     ctx.check(rd_m["d"] == ("c", "sync") and rd_m["t"][0] == "list" and wr in rd_m["t"][1:], "C14.read-port-transparent", ex.obj(rd).site, "BasicFifo.read_port",
               found=tstr(ex.obj(rd).ctor), required="synchronous read port, transparent for the write port (an element written this cycle can be read next cycle)")
     # declared ranges of the mirrors: the level can equal depth, the pointers address depth rows
